@@ -1,5 +1,5 @@
 SPECIFICATION Spec
 CONSTANTS
-  MaxLen = 3
+  MaxLen = 4
 INVARIANT InvTrue
 CHECK_DEADLOCK FALSE
